@@ -1,7 +1,7 @@
 #!/bin/bash
-# usage: tools/runneutral.sh <dir-with-NNN.diff> [jobs]   : every check against every neutral patch; prints false alarms
-DIR=$1; J=${2:-5}
+# usage: tools/runneutral.sh <dir-with-*.diff> [jobs] [result-dir]   : every check against every neutral patch; prints the number of patches with a false alarm
+DIR=$1; J=${2:-5}; RES=${3:-/tmp/neutralres}
 ALL="C01 C02 C03 C04 C05 C06 C07 C08 C09 C10 C11 C12 C13 C14 C15 C16 C17 C18 C19 C20"
-mkdir -p /tmp/neutralres
-ls $DIR/*.diff | xargs -P $J -I{} sh -c 'n=$(basename {} .diff); VOI_BIN=${VOI_BIN:-/verif/bin/voicheck-frozen} VOI_MEM_KB=14000000 MUT_BUILD=0 MUT_LINES=2 /verif/tools/runmut.sh {} '"$ALL"' > /tmp/neutralres/$n.txt 2>&1'
-grep -l DETECTED /tmp/neutralres/*.txt | wc -l
+mkdir -p $RES
+ls $DIR/*.diff | xargs -P $J -I{} sh -c 'n=$(basename {} .diff); VOI_BIN=${VOI_BIN:-/verif/bin/voicheck-frozen} VOI_MEM_KB=14000000 MUT_BUILD=0 MUT_LINES=2 /verif/tools/runmut.sh {} '"$ALL"' > '"$RES"'/$n.txt 2>&1'
+grep -l DETECTED $RES/*.txt | wc -l
